@@ -24,7 +24,7 @@ RULE = (
     "Gibbs} and of a dict model {RW, IWLS, HMC, MH}, every order of every set, 1 iteration with ALL "
     "combinations of environment answers (uniform/bernoulli accept-or-reject, categorical outcome) and 2 "
     "iterations with <= 1 (quick) / 2 (thorough) non-default answers; engine level: kernel sets x chunk sizes, "
-    "4 chains, every stored iteration. Distinct outcome = (kernel order, accept/reject pattern)."
+    "4 chains, every stored iteration; joint Gibbs blocks: every order of 2 and 3 keys x {dict, Liesel} x {eager, jit}, every drawn key must be in the returned state. Distinct outcome = (kernel order, accept/reject pattern)."
 )
 ASSUMPTIONS = [
     "float64 closed-form reference of the regression model; tolerance 2e-4 absolute on log-densities and derived values (float32)",
@@ -74,6 +74,7 @@ def units(tier, seed):
         for perm in itertools.permutations(range(len(ks))):
             us.append({"part": "kernel", "model": "dict", "kernels": [ks[i] for i in perm], "dev2": 1 if tier == "quick" else 2})
     us.append({"part": "distreg", "seed": seed})
+    us.append({"part": "gibbsjoint"})
     for es in ENGINE_SETS[: 2 if tier == "quick" else 3]:
         us.append({"part": "engine", "cfg": es, "seed": seed})
     return us
@@ -376,11 +377,53 @@ def run_distreg_unit(res, unit):
     jax.clear_caches()
 
 
+def run_gibbsjoint_unit(res, unit):
+    """A GibbsKernel over a JOINT block: every key of the drawn position must be in the returned state
+    (all orders of 2 and 3 keys, dict and Liesel model, eager and jit), all other parameters untouched."""
+    import jax
+    import jax.numpy as jnp
+    import liesel.goose as gs
+    from liesel.goose.epoch import EpochConfig, EpochType
+
+    epoch = EpochConfig(EpochType.POSTERIOR, 10, 1, None).to_state(2, 7)
+    for mname in ("dict", "liesel"):
+        if mname == "dict":
+            interface, state0 = gs.DictInterface(kl.dict_log_prob_jax), kl.dict_state()
+            pool, draw = ["a", "b", "c"], {"a": jnp.float32(-0.75), "b": jnp.array([0.5, 0.25], dtype=jnp.float32), "c": jnp.float32(1.5)}
+            allp = pool
+        else:
+            model = kl.build_liesel_model()
+            interface, state0 = gs.LieselInterface(model), model.state
+            pool, draw = ["mu", "beta", "log_sigma"], {"mu": jnp.float32(-0.75), "beta": jnp.array([0.5, 0.25], dtype=jnp.float32), "log_sigma": jnp.float32(0.125)}
+            allp = kl.PARAMS
+        before = interface.extract_position(allp, state0)
+        for n in (2, 3):
+            for keys in itertools.permutations(pool, n):
+                for jit in (False, True):
+                    k = gs.GibbsKernel(list(keys), lambda key, ms, keys=keys: {q: draw[q] for q in keys})
+                    k.set_model(interface)
+                    ks = k.init_state(jax.random.PRNGKey(0), state0)
+                    f = jax.jit(k.transition) if jit else k.transition
+                    out = f(jax.random.PRNGKey(1), ks, state0, epoch)
+                    after = interface.extract_position(allp, out.model_state)
+                    res.executions += 1
+                    res.transitions += 1
+                    res.outcome("gibbsjoint", mname, n, jit)
+                    for q in allp:
+                        want = draw[q] if q in keys else before[q]
+                        if not np.array_equal(np.asarray(after[q]), np.asarray(want)):
+                            res.violation("gibbsjoint", f"joint-gibbs-{mname}-{'own' if q in keys else 'foreign'}-key", {"model": mname, "keys": list(keys), "jit": jit}, f"GibbsKernel{list(keys)} on the {mname} model drew {q}={np.asarray(draw[q]).tolist() if q in keys else '(not its key)'} but the returned state holds {q}={np.asarray(after[q]).tolist()} (expected {np.asarray(want).tolist()})")
+                            break
+        res.states += 1
+
+
 def run_unit(unit):
     core.assert_repo()
     res = core.UnitResult(unit)
     if unit["part"] == "distreg":
         run_distreg_unit(res, unit)
+    elif unit["part"] == "gibbsjoint":
+        run_gibbsjoint_unit(res, unit)
     elif unit["part"] == "kernel":
         run_kernel_unit(res, unit)
     else:
